@@ -83,9 +83,34 @@ pub fn unregister(owner: usize, q: Option<u16>) {
 pub fn status(owner: usize, status: u32) {
     WAKE.with(|w| {
         let mut w = w.borrow_mut();
+        let was_live = w.live.contains(&owner);
         w.live.retain(|o| *o != owner);
         if status & 4 != 0 {
             w.live.push(owner);
+            if !was_live && w.enabled {
+                // DRIVER_OK: buffers the constructor posted beforehand (receive / event buffers) could
+                // not be announced until now (a notification before DRIVER_OK is ignored by a
+                // specification-following device); if the device has not suppressed notifications
+                // it must be told once it is live
+                for x in w.queues.iter_mut().filter(|x| x.owner == owner) {
+                    let idx = match rd16(x.driver + 2) {
+                        Some(v) => v,
+                        None => continue,
+                    };
+                    x.last_idx = idx;
+                    if idx == 0 {
+                        continue;
+                    }
+                    let need = if x.event_idx {
+                        rd16(x.device + 4 + 8 * x.size as u64).map(|ev| idx.wrapping_sub(ev).wrapping_sub(1) < idx).unwrap_or(false)
+                    } else {
+                        rd16(x.device).map(|f| f & 1 == 0).unwrap_or(false)
+                    };
+                    if need {
+                        x.pending = Some(format!("queue {}: {} entries were made available before DRIVER_OK and the device (notifications not suppressed) has to be told once it is live", x.q, idx));
+                    }
+                }
+            }
         }
     });
 }
@@ -148,7 +173,7 @@ pub fn take_lost() -> Vec<String> {
         let mut v = vec![];
         for x in w.queues.iter_mut() {
             if let Some(p) = x.pending.take() {
-                v.push(format!("[C05] lost notification: {} and the driver call returned without Transport::notify({})", p, x.q));
+                v.push(format!("[C05] lost notification: {}; the driver call returned without Transport::notify({})", p, x.q));
             }
         }
         v
